@@ -33,7 +33,7 @@ def describe(sig, st):
 def run(tier, scratch, record=False):
     t0 = time.time()
     gen = "IntCodec_gen_%s.cfg" % tier
-    res = vlib.tlc_parallel(scratch, [("IntCodec", "IntCodec_mc.cfg", 1), ("IntCodec", gen, 1)], timeout=1500)
+    res = vlib.tlc_parallel(scratch, [("IntCodec", "IntCodec_mc.cfg", 4), ("IntCodec", gen, 8)], timeout=1500)
     cases = res[1].prints.get("CASE") or []
     if len(cases) < 1000:
         raise vlib.Infra("IntCodec produced only %d cases" % len(cases))
